@@ -92,9 +92,13 @@ def run(repo: Repo, chk: Check, thorough: bool = False) -> None:
             if isinstance(ri.test, ast.Name) and cfg.must_pass(tr, cfg.EXIT, [ri]):
                 rc = [c for st in ri.body for c in ast.walk(st) if isinstance(c, ast.Call) and call_name(c) == 'reportErrors'][0]
                 a0 = rc.args[0] if rc.args else None
-                if isinstance(a0, ast.Name) and a0.id in params:
+                owner = [norm(c.args[0]) for c in calls_in(f) if call_name(c) == '_get_docformat' and c.args]
+                if isinstance(a0, ast.Name) and a0.id in params and (not owner or a0.id in owner):
                     ok = True
                     detail = f'every path from the try to the return passes `if {ri.test.id}: reportErrors({a0.id}, ...)`'
+                elif isinstance(a0, ast.Name) and owner:
+                    detail = (f'errors are reported against `{a0.id}` but the docstring belongs to `{owner[0]}` (the object whose module '
+                              'decides the docformat): an inherited docstring is reported once per inheriting object, in the wrong file')
         chk.ob('R08.1', f'{PARSE_BARRIER} :: errors reported on every path', ok, detail, f.loc)
     chk.require('R08.1', 6)
 
